@@ -532,6 +532,7 @@ type FuncSpec struct {
 	Splits     []*SplitSpec
 	Asserts    []*Clause
 	NoPanicOff bool
+	Implementations bool // contract on an interface method, checked against every implementation
 	Reveal     []string
 	File       string
 	Line       int
@@ -599,7 +600,7 @@ var clauseKW = map[string]bool{
 	"modifies": true, "loop": true, "invariant": true, "decreases": true, "safe": true,
 	"nowrap": true, "wrapok": true, "inline": true, "trusted": true, "uses": true, "split": true, "props": true,
 	"axiom": true, "induction": true, "guarded_by": true, "pure": true, "assert": true, "timeout": true,
-	"trigger": true, "abstract": true, "opaque": true, "reveal": true,
+	"trigger": true, "abstract": true, "opaque": true, "reveal": true, "implementations": true,
 }
 
 func splitName(rest string) (name, body string) {
@@ -833,6 +834,8 @@ func (sf *SpecFile) Load(path, pkg string) (err error) {
 					cur.NoWrap = true
 				case "inline":
 					cur.Inline = true
+				case "implementations":
+					cur.Implementations = true
 				default:
 					return fmt.Errorf("%s:%d: unexpected %q after the function name", path, rc.line, f[i])
 				}
@@ -917,6 +920,8 @@ func (sf *SpecFile) Load(path, pkg string) (err error) {
 			cur.Inline = true
 		case "trusted":
 			cur.Trusted = true
+		case "implementations":
+			cur.Implementations = true
 		case "pure":
 			cur.Pure = true
 		case "timeout":
